@@ -460,7 +460,7 @@ private theorem ginv_user (c : Ctrl) (more : Bool) (h : GInv c = true) : GInv (c
   obtain ⟨lock, ev, u, k⟩ := c
   cases lock <;> cases ev <;> cases u <;> cases k <;> cases more <;> revert h <;> decide
 
-private theorem ginv_kex (c : Ctrl) (h : GInv c = true) : GInv (ckex c) = true := by
+private theorem ginv_kex (c : Ctrl) (h : GInv c = true) : GInv (ckex true c) = true := by
   obtain ⟨lock, ev, u, k⟩ := c
   cases lock <;> cases ev <;> cases u <;> cases k <;> revert h <;> decide
 
@@ -475,16 +475,20 @@ def WInv (s : SendGate.St) : Prop :=
     (post ≠ [] → s.c.kpc = .done)
 
 private theorem kexPart_step (s : SendGate.St) :
-    kexPart (ckex s.c).kpc = kexPart s.c.kpc ++ written s .kex ∧ (s.c.kpc = .done → (ckex s.c).kpc = .done) := by
-  obtain ⟨r, ⟨lock, ev, u, k⟩, td, w⟩ := s
-  cases k <;> cases lock <;> simp [ckex, kexPart, written]
+    kexPart (ckex s.klock s.c).kpc = kexPart s.c.kpc ++ written s .kex ∧
+      (s.c.kpc = .done → (ckex s.klock s.c).kpc = .done) := by
+  obtain ⟨r, kl, ⟨lock, ev, u, k⟩, td, w⟩ := s
+  cases k <;> cases lock <;> cases kl <;> simp [ckex, kexPart, written]
 
-private theorem gate_step (s : SendGate.St) (t : SendGate.Tid) (hr : s.recheck = true) (hg : GInv s.c = true)
-    (hw : WInv s) : GInv (SendGate.step s t).c = true ∧ WInv (SendGate.step s t) ∧ (SendGate.step s t).recheck = true := by
+private theorem gate_step (s : SendGate.St) (t : SendGate.Tid) (hr : s.recheck = true) (hkl : s.klock = true)
+    (hg : GInv s.c = true) (hw : WInv s) :
+    GInv (SendGate.step s t).c = true ∧ WInv (SendGate.step s t) ∧ (SendGate.step s t).recheck = true ∧
+      (SendGate.step s t).klock = true := by
   obtain ⟨pre, post, hwire, hpre, hpost, hdone⟩ := hw
   cases t with
   | user =>
-    refine ⟨by simpa [SendGate.step, hr] using ginv_user s.c _ hg, ?_, by simpa [SendGate.step] using hr⟩
+    refine ⟨by simpa [SendGate.step, hr] using ginv_user s.c _ hg, ?_, by simpa [SendGate.step] using hr,
+      by simpa [SendGate.step] using hkl⟩
     have hk : (cuser s.recheck (decide (s.todo > 1)) s.c).kpc = s.c.kpc := by
       obtain ⟨lock, ev, u, k⟩ := s.c
       cases u <;> simp [cuser] <;> (repeat' split) <;> rfl
@@ -507,12 +511,13 @@ private theorem gate_step (s : SendGate.St) (t : SendGate.Tid) (hr : s.recheck =
     · exact ⟨pre, post, by simp [SendGate.step, written, hs, hk, hwire], hpre, hpost,
         fun h => by simpa [SendGate.step, hk] using hdone h⟩
   | kex =>
-    refine ⟨by simpa [SendGate.step] using ginv_kex s.c hg, ?_, by simpa [SendGate.step] using hr⟩
+    refine ⟨by simpa [SendGate.step, hkl] using ginv_kex s.c hg, ?_, by simpa [SendGate.step] using hr,
+      by simpa [SendGate.step] using hkl⟩
     obtain ⟨h1, h2⟩ := kexPart_step s
     by_cases hd : s.c.kpc = .done
     · refine ⟨pre, post, ?_, hpre, hpost, fun _ => by simpa [SendGate.step] using h2 hd⟩
       have hwn : written s .kex = [] := by simp [written, hd]
-      have : (ckex s.c).kpc = .done := h2 hd
+      have : (ckex s.klock s.c).kpc = .done := h2 hd
       simp [SendGate.step, hwn, this, hwire, hd]
     · have hp : post = [] := by
         cases post with
@@ -528,15 +533,15 @@ of user messages and any schedule of the user thread's and the exchange's steps:
 either before our KEXINIT or after our NEWKEYS — between them only the exchange's own messages. -/
 theorem send_gate_window_clean (n : Nat) (sched : List SendGate.Tid) :
     WInv (SendGate.run (SendGate.init true n) sched) := by
-  have : ∀ s : SendGate.St, s.recheck = true → GInv s.c = true → WInv s →
+  have : ∀ s : SendGate.St, s.recheck = true → s.klock = true → GInv s.c = true → WInv s →
       WInv (SendGate.run s sched) := by
     induction sched with
-    | nil => intro s _ _ h; exact h
+    | nil => intro s _ _ _ h; exact h
     | cons t ts ih =>
-      intro s hr hg hw
-      obtain ⟨a, b, c⟩ := gate_step s t hr hg hw
-      exact ih _ c a b
-  refine this _ rfl ?_ ⟨[], [], by simp [SendGate.init, kexPart], by simp, by simp, by simp⟩
+      intro s hr hkl hg hw
+      obtain ⟨a, b, c, d⟩ := gate_step s t hr hkl hg hw
+      exact ih _ c d a b
+  refine this _ rfl rfl ?_ ⟨[], [], by simp [SendGate.init, kexPart], by simp, by simp, by simp⟩
   by_cases h : n = 0 <;> simp [SendGate.init, h, GInv]
 
 /-- **Witness for the variant without the re-check** (trusting the result of `wait()`): the user thread returns
@@ -546,6 +551,13 @@ theorem send_gate_no_recheck_witness :
     (SendGate.run (SendGate.init false 1)
       [.user, .kex, .kex, .kex, .kex, .user, .user, .kex, .kex]).wire = [20, 94, 30, 21] := by decide
 
+/-- **Witness for the variant whose `_send_kex_init` clears the event without the lock** (the sender's re-check
+under the lock is intact): a sender parked between its `is_set()` test and its write is overtaken — the event is
+cleared and KEXINIT written while it still holds the lock, then its CHANNEL_DATA goes out inside the window. -/
+theorem send_gate_unlocked_clear_witness :
+    (SendGate.run (SendGate.init true 1 false)
+      [.user, .user, .user, .kex, .kex, .kex, .kex, .user, .user, .kex, .kex]).wire = [20, 94, 30, 21] := by decide
+
 /-- the same schedule with the re-check: the message waits for the end of the exchange -/
 example : (SendGate.run (SendGate.init true 1)
     [.user, .kex, .kex, .kex, .kex, .user, .user, .kex, .kex, .kex, .kex, .kex, .user, .user, .user, .user, .user]).wire
@@ -553,9 +565,11 @@ example : (SendGate.run (SendGate.init true 1)
 
 /-- **The tree under test** (AST of `Transport._send_user_message` / `_send_kex_init`, read on every run): the
 `_send_message` call of `_send_user_message` is reached only through an `is_set()` test made while
-`clear_to_send_lock` is held, and `_send_kex_init` clears the event under that lock before it writes KEXINIT. -/
+`clear_to_send_lock` is held, `_send_kex_init` clears the event under that lock before it writes KEXINIT, and every
+`clear_to_send.clear()` in transport.py is inside a `clear_to_send_lock` region. -/
 theorem send_gate_facts :
-    Generated.C11.sendRechecksUnderLock = true ∧ Generated.C11.kexInitClearsBeforeWrite = true := by decide
+    Generated.C11.sendRechecksUnderLock = true ∧ Generated.C11.kexInitClearsBeforeWrite = true ∧
+      Generated.C11.allClearsUnderLock = true := by decide
 
 /-- **What the "peer ignores our request" test counts** (AST of `Packetizer.read_message`, read on every run): the
 packets and bytes received *since the request* (`received_*_overflow`), against the overflow allowances — not the
